@@ -36,6 +36,13 @@ def specs_for(progs, sem, tier, rng):
                 specs.append(psrun.make_spec(p, s, sc, name="%s#%s%d" % (p["name"], mode, k), vdr=mode, files=True,
                                              vdr_jitter=rng.choice([0, 300, 3000]),
                                              phys_paths=(k % 4 == 3)))
+            # a job fails, mrp exits between partial and final cleanup, a fresh runtime
+            # re-attaches with the fault removed and completes
+            jobs = [j["key"] for j in psprops.expected_jobs(s)]
+            for k in range({"quick": 1, "thorough": 8}[tier]):
+                specs.append(psrun.make_spec(p, s, {"kind": "random", "seed": rng.randrange(1 << 30), "penv": rng.choice([0.4, 0.8])},
+                                             name="%s#%sr%d" % (p["name"], mode, k), vdr=mode, files=True,
+                                             faults={rng.choice(jobs): "errors"}, restart=True, vdr_jitter=500))
     return specs
 
 
@@ -56,7 +63,28 @@ def run_files(pid, tier, replay, assumptions):
         return 1 if mine else 0
     mc = model_check(tier)
     specs = specs_for(progs, sem, tier, rng)
+    # direction B: behaviours of Vdr.tla (TLC simulation) as real programs and
+    # schedules, the cleanup goroutines released where the behaviour says
+    import vdrsim
+    behs, simres = vdrsim.behaviours({"quick": 60, "thorough": 600}[tier])
+    bsem, _ = psrun.semantics([b[0] for b in behs])
+    sem.update(bsem)
+    model_disk = {}
+    for bp, mode, script, disk in behs:
+        specs.append(psrun.make_spec(bp, bsem[bp["name"]], {"kind": "script", "script": script}, name=bp["name"] + "#model",
+                                     vdr=mode, files=True, vdr_gate=True))
+        model_disk[bp["name"] + "#model"] = disk
     results = psrun.run_specs(specs, nproc=16)
+    drift = 0
+    for s_, r_ in zip(specs, results):
+        if s_["name"] in model_disk:
+            fin = [e for e in r_["trace"] if e["ev"] == "VdrFinal"]
+            real = sorted(fin[0].get("present") or []) if fin else None
+            if real != model_disk[s_["name"]]:
+                drift += 1
+                if drift <= 3:
+                    print("NOTE model-drift the files left at the end differ from spec/Vdr.tla's final state: model %s real %s (%s)" % (
+                        model_disk[s_["name"]], real, s_["name"]))
     records = []
     for s, r in zip(specs, results):
         records += psprops.monitor_records(s, sem[s["name"].split("#")[0]], r)
@@ -88,6 +116,8 @@ def run_files(pid, tier, replay, assumptions):
         "exhaustive_model_runs": ["MC_Vdr: %d distinct / %d generated states, depth %d, %.1fs (78 programs x 3 modes, all interleavings of the run loop with the cleanup goroutines)" % (
             mc.distinct, mc.generated, mc.depth, mc.wall)],
         "traces_validated_against_impl": len(specs),
+        "model_behaviours_replayed": len(behs), "model_final_state_drift": drift,
+        "cleanup_goroutines_released_by_script": sum(1 for r_ in results for t in r_["script"] if t.startswith("V:")),
         "programs": len(progs), "program_names": [p["name"] for p in progs], "vdr_modes": list(MODES),
         "runs": len(specs), "runs_below_symlink_with_physical_names": sum(1 for s in specs if s.get("phys_paths")),
         "files_written": nfiles, "removals_observed": nrem,
@@ -105,6 +135,8 @@ ASSUMPTIONS = [
     "FileFacts (writer, jobs handed the file, named by top-level outputs / retain) are computed by TLC from spec/MroSem.tla; 'needed' is judged per job (a job that never receives a file does not keep it alive), which is weaker than the per-call wording of the statement",
     "removals are observed at the verif hook VdrRemove (before os.RemoveAll, storage lock held) with symlink-resolved paths; measured sizes come from a walk at that moment",
     "kill report accounting: the pipestance-level report's count and size must equal the number and lstat sizes of the directory entries (files and directories; of a per-job temporary directory only its contents) present under each path at the moment mrp removed it - the unit storage.go counts in",
+    "behaviours of spec/Vdr.tla from TLC simulation are replayed: the model's program record is rendered as MRO, Start / Finish become job begin / end, AsyncKill releases the cleanup goroutine of that fork from a gate at the VdrBegin hook (AsyncCache has no hook and runs when the goroutine starts); the files left at the end are compared with the model's final disk (differences are model-drift notes)",
     "asynchronous cleanup goroutines are delayed by seeded jitter at VdrBegin; every fourth run lives below a symbolic link with stage code reporting fully resolved names",
     "strict mode with an explicit stage-level `volatile = false` is not required to reclaim (weaker reading)",
+    "restart runs: one job fails (_errors), mrp exits after some forks have been cleaned partially, a fresh runtime re-attaches with the fault removed; the same guards apply to both incarnations and to the final tree, the accounting is summed over both",
 ]
